@@ -461,18 +461,27 @@ where
           });
 
         let mut events = Events::with_capacity(1);
-        poll.poll(&mut events, Some(max_wait))?;
-        if let Some(_event) = events.iter().next() {
-          match acked_receiver.try_recv() {
-            Ok(_) => Ok(true), // got token
-            Err(e) => {
-              warn!("wait_for_acknowledgments - Spurious poll event? - {e}");
-              Ok(false) // TODO: We could also loop here
+        let deadline = std::time::Instant::now() + max_wait;
+        loop {
+          let remaining = deadline.saturating_duration_since(std::time::Instant::now());
+          poll.poll(&mut events, Some(remaining))?;
+          if let Some(_event) = events.iter().next() {
+            match acked_receiver.try_recv() {
+              Ok(_) => return Ok(true), // got token
+              Err(e) => {
+                // No token. This happens e.g. when the sending end was dropped, because the
+                // command could not be sent or another waiter took our place in the Writer.
+                // That is not an acknowledgment, but it is not a timeout yet either.
+                warn!("wait_for_acknowledgments - Spurious poll event? - {e}");
+                if remaining.is_zero() {
+                  return Ok(false);
+                }
+              }
             }
+          } else {
+            // no token, so presumably timed out
+            return Ok(false);
           }
-        } else {
-          // no token, so presumably timed out
-          Ok(false)
         }
       }
     } // match
